@@ -41,6 +41,9 @@ pub struct Case {
     pub term_order: Vec<u8>,
 }
 
+/// residual tolerance relative to 1 + max |b|
+const RES_TOL: f64 = 2e-5;
+
 pub struct P;
 
 fn var_of(case: &Case, i: usize) -> Var {
@@ -163,11 +166,14 @@ fn judge(case: &Case, sys: &System, what: &str, sol: &HashMap<Var, f32>, params:
         let r: f64 = (0..n).map(|j| sys.a[i][j] * val(j)).sum::<f64>() - sys.b[i];
         worst = worst.max(r.abs());
     }
+    // "small residual": a few tens of f32 rounding errors of the system's own
+    // magnitude (the largest observed on the unchanged tree is below
+    // 1e-6 (1 + |b|); see max_residual_over_tolerance_x1000 in the evidence)
     cx.ev.max(
         "max_residual_over_tolerance_x1000",
-        (1000.0 * worst / (1e-3 * (1.0 + bmax))) as u64,
+        (1000.0 * worst / (RES_TOL * (1.0 + bmax))) as u64,
     );
-    if !(worst <= 1e-3 * (1.0 + bmax)) {
+    if !(worst <= RES_TOL * (1.0 + bmax)) {
         fail!(
             format!("residual-{what}"),
             "{what}: residual {worst:e} for a diagonally dominant {n}x{n} system (|b| <= {bmax}); fixed {:?}",
@@ -240,7 +246,7 @@ impl Prop for P {
         for (v, a) in &sv {
             let b = sj[v];
             ensure!(
-                (a - b).abs() <= 1e-3 * (1.0 + a.abs()),
+                (a - b).abs() <= 1e-4 * (1.0 + a.abs()),
                 "backends-disagree",
                 "{v:?}: interpreter {a} vs JIT {b}"
             );
@@ -289,8 +295,8 @@ impl Prop for P {
          parameter); two thirds sum each equation's terms from its own starting variable, forwards or backwards, so that tapes \
          over the same variables number them differently; both \
          back ends. Oracle: the result has a value for exactly the free parameters; the residual of the ORIGINAL system \
-         with fixed values substituted is <= 1e-3 (1 + |b|); exact-start systems return the start bit-for-bit; the two \
-         back ends agree to 1e-3. Non-trivial = the number of free parameters is not a multiple of three, at least one \
+         with fixed values substituted is <= 2e-5 (1 + |b|); exact-start systems return the start bit-for-bit; the two \
+         back ends agree to 1e-4. Non-trivial = the number of free parameters is not a multiple of three, at least one \
          parameter is fixed, and some equation omits a free variable."
     }
 }
